@@ -33,10 +33,13 @@ var retAlphabet = []retEntry{
 	{"%s.audit.20250530100000", false},
 	{"%s.bak", false},
 	{"%s.1.gz", false},
-	{"%s.2025053010000", false},   // 13 digits
-	{"%s.202505301000000", false}, // 15 digits
-	{"%s.2025053010000x", false},  // 14 characters, one letter
-	{"%s", false},                 // bare name
+	{"%s.2025053010000", false},    // 13 digits
+	{"%s.202505301000000", false},  // 15 digits
+	{"%s.2025053010000x", false},   // 14 characters, one letter
+	{"%s.20250530100000.1", false}, // own timestamp followed by a fraction-like suffix
+	{"%s.20250530100000,5", false},
+	{"%s.20250530100000.gz", false},
+	{"%s", false}, // bare name
 	{"other.log.20250530100000", false},
 	{"%s.20250529100000", true}, // directory that looks like an own file
 	{"archive", true},
